@@ -95,7 +95,12 @@ bool MainSolver::pop() {
     preprocessor.pop();
     termNames.popScope();
     firstNotSimplifiedFrame = std::min(firstNotSimplifiedFrame, frames.frameCount());
-    if (not isLastFrameUnsat()) { getSMTSolver().restoreOK(); }
+    if (not isLastFrameUnsat()) {
+        getSMTSolver().restoreOK();
+        // The answer of the last check-sat belongs to assertions that are gone: queries that need the SAT or UNSAT state
+        // (get-proof, get-unsat-core, get-interpolants, get-model) must be rejected until the next check-sat
+        status = s_Undef;
+    }
     return true;
 }
 
